@@ -307,20 +307,9 @@ class KernelCheck(object):
             t1 = time.time()
             try:
                 if dif[r['name']]:
-                    outs = []
-                    for name, cmd in solve.EXTERNAL:
-                        st, sv, txt = solve._run_external(o['file'], tmo[r['name']], which=[name])
-                        outs.append((name, st, txt))
-                    definite = set(st for _, st, _ in outs if st in ('sat', 'unsat'))
-                    o['detail'] = str([(n, s) for n, s, _ in outs])
-                    if len(definite) > 1:
-                        status, solver, txt = 'conflict', 'diff', ''
-                    elif not definite:
-                        status, solver, txt = 'unknown', 'diff', ''
-                    else:
-                        status = list(definite)[0]
-                        solver = 'diff:' + '/'.join(n for n, s, _ in outs if s == status)
-                        txt = [t for _, s, t in outs if s == status][0]
+                    # all back ends in parallel, each until it answers or the cap: answers must agree
+                    status, solver, txt, answers = solve._run_external(o['file'], min(tmo[r['name']], 400), wait_all=True)
+                    o['detail'] = str(answers)
                 else:
                     status, solver, txt = solve._run_external(o['file'], tmo[r['name']])
             finally:
